@@ -422,6 +422,16 @@ SIZE_PROBES = [
 ]
 
 
+# the predefined identifier __func__ is `static const char __func__[] = "name";` (6.4.2.2): an array with the terminator counted
+FUNC_PROBES = [
+    ("probe", "sizeof __func__ == 6"), ("probe", "sizeof(__func__) == sizeof \"probe\""), ("probe", "sizeof *&__func__ == 6"), ("probe", "sizeof(typeof(__func__)) == 6"),
+    ("probe", "_Generic(&__func__, const char (*)[6]: 1, default: 0)"), ("probe", "_Generic(__func__, const char *: 1, default: 0)"),
+    ("probe", "!__builtin_types_compatible_p(typeof(__func__), const char[5])"), ("probe", "__builtin_types_compatible_p(typeof(__func__), const char[6])"),
+    ("a", "sizeof __func__ == 2"), ("a_rather_long_function_name_0123456789", "sizeof __func__ == 39"), ("probe", "sizeof(0, __func__) == sizeof(char *)"),
+    ("probe", "_Generic(&__func__[0], const char *: 1, default: 0)"), ("main", "sizeof __func__ == 5"),
+]
+
+
 def ptr_enum(ctx):
     for ti in range(3):
         yield {"t": ti}
@@ -446,8 +456,29 @@ def ptr_check(case, ctx):
     for j, e in enumerate(SIZE_PROBES):
         lines.append("int k%d = (%s);" % (1000 + j, e))
         probes.append(("k%d" % (1000 + j), 1, e, "ptr", None, None, False))
+    fprobes = []
+    seen = {}
+    for name, e in FUNC_PROBES:
+        seen[name] = seen.get(name, 0) + 1
+        if seen[name] > 1 or name == "main":
+            # one definition per name and unit: the others go into units of their own below
+            fprobes.append((name, e, None))
+            continue
+        fprobes.append((name, e, "int %s(void) { _Static_assert(%s, \"probe\"); return 0; }" % (name, e)))
+        lines.append(fprobes[-1][2])
     src = "\n".join(lines) + "\n"
     res.n += len(probes)
+    for name, e, inl in fprobes:
+        one = "int %s(void) { _Static_assert(%s, \"probe\"); return 0; }\n" % (name, e)
+        q = cproc.cc(ctx, one.encode(), target, "plain")
+        res.n += 1
+        if q.rc != 0:
+            if clang_values(ctx, one + "int k0 = 1;\n", target) is None:
+                res.discard.append("func-probe-rejected-by-clang: " + e)
+                continue
+            res.fail = dict(sig="func-probe:" + e, msg="property of __func__ in %s() on %s does not hold: %s: %s" % (name, target, e, q.err.decode(errors="replace")[:200]), input=one)
+            return res
+        res.keys.append(sha([name, e, target]))
     p = cproc.cc(ctx, src.encode(), target, "plain", timeout=60)
     ref = clang_values(ctx, src, target)
     if ref is None:
